@@ -738,6 +738,29 @@ def zero_mark_spec(draw):
 
 
 @st.composite
+def pair_flatten_spec(draw):
+    """a long and a short leg of exactly the same size in two names quoted at the same price (a pairs trade at parity, no costs), flattened
+    together: the closes cancel in cash - and the tree has changed all the same (positions, children's values, weights, notional)"""
+    n = draw(st.integers(3, 6))
+    ds = draw(gen.dates(n, n, kinds=("bday", "daily")))
+    pa = draw(gen.price_path(n))
+    nested = draw(st.booleans())
+    tree = {"name": "root", "kind": "StrategyBase", "children": [{"name": "s1", "kind": "StrategyBase", "children": ["a", "b"]}, "c"]} if nested else {"name": "root", "kind": "StrategyBase", "children": ["a", "b", "c"]}
+    spec = {"dates": ds, "prices": {"a": list(pa), "b": list(pa), "c": draw(gen.price_path(n))}, "tree": tree, "integer": draw(st.booleans()), "capital": 1e6, "fee": {"kind": "none"}}
+    paths = strategy_paths(tree)
+    holder = "root>s1" if nested else "root"
+    f = draw(st.sampled_from([0.1, 0.25, 0.05]))
+    ops = ([["alloc_child", "root", "s1", 0.5]] if nested else []) + [["transact", holder, "a", f, None], ["transact", holder, "b", -f, None]]
+    if draw(st.booleans()):
+        ops.append(["alloc_child", "root", "c", 0.1])
+    ops += [["next"]] * draw(st.integers(0, n - 2))
+    ops.append(["flatten", holder])
+    spec["ops"] = ops + draw(st.lists(op_spec(paths, False), min_size=0, max_size=6))
+    spec["pair_flatten"] = True
+    return spec
+
+
+@st.composite
 def exact_fee_spec(draw):
     """trades whose proceeds equal their commission exactly (a minimum ticket charge on a small residual lot: one unit sold at 10.0 under a
     flat fee of 10.0), so that the net cash movement of the trade is exactly zero while a fee is still due and has to be recorded"""
@@ -769,6 +792,8 @@ def history_spec(draw, min_ops=3, max_ops=25, max_dates=8, costs=True, allow_mul
         return draw(exact_fee_spec())
     if k_ == 3:
         return draw(zero_mark_spec())
+    if k_ == 4:
+        return draw(pair_flatten_spec())
     ds = draw(gen.dates(2, max_dates, kinds=("bday", "daily", "mixed", "intraday")))
     n = len(ds)
     nt = draw(st.integers(1, 4))
@@ -842,6 +867,8 @@ def history_labels(spec, run):
         labs.append("proceeds_equal_commission")
     if spec.get("zero_marks"):
         labs.append("held_through_zero_marks_and_recovery")
+    if spec.get("pair_flatten"):
+        labs.append("offsetting_legs_flattened_at_parity")
     if spec.get("bidoffer"):
         labs.append("spread")
     if spec["integer"]:
